@@ -330,7 +330,31 @@ func (ef *errFlow) exploreErrorRegion(fn *ssa.Function, e ssa.Value, src string,
 	var problems []string
 	seen := map[*ssa.BasicBlock]bool{}
 	var walk func(b *ssa.BasicBlock)
+	var cameFrom *ssa.BasicBlock
 	walk = func(b *ssa.BasicBlock) {
+		pred := cameFrom
+		if !start.Dominates(b) && pred != nil {
+			// a shared exit: the block only merges the results and returns them. The error that
+			// arrives from this path is the phi operand of the edge taken.
+			if r, ok := returnOnlyTail(b); ok {
+				v := retErrOperand(fn, r)
+				if ph, isPhi := v.(*ssa.Phi); isPhi && ph.Block() == b {
+					for j, pb := range b.Preds {
+						if pb == pred {
+							v = ph.Edges[j]
+						}
+					}
+				}
+				known := knownNonNilAt(pred)
+				if len(start.Preds) == 1 {
+					known[e] = true
+				}
+				if v == nil || !nonNilError(v, known, 0) {
+					problems = append(problems, fmt.Sprintf("return at %s may carry a nil error on the failure path (arriving from %s)", p.Pos(r.Pos()), blockPos(p, pred)))
+				}
+				return
+			}
+		}
 		if seen[b] {
 			return
 		}
@@ -358,6 +382,7 @@ func (ef *errFlow) exploreErrorRegion(fn *ssa.Function, e ssa.Value, src string,
 				k := FnName(fn) + "|" + src + "|" + name
 				if _, allowed := sentinelConversions[k]; allowed {
 					// the sentinel edge is an accepted conversion; keep exploring the other edge
+					cameFrom = b
 					if eq {
 						walk(b.Succs[1])
 					} else {
@@ -378,11 +403,26 @@ func (ef *errFlow) exploreErrorRegion(fn *ssa.Function, e ssa.Value, src string,
 			}
 		}
 		for _, s := range b.Succs {
+			cameFrom = b
 			walk(s)
 		}
 	}
 	walk(start)
 	return problems
+}
+
+// returnOnlyTail: b consists of phis and a return (nothing is computed after the merge).
+func returnOnlyTail(b *ssa.BasicBlock) (*ssa.Return, bool) {
+	for _, ins := range b.Instrs {
+		switch x := ins.(type) {
+		case *ssa.Phi, *ssa.DebugRef:
+		case *ssa.Return:
+			return x, true
+		default:
+			return nil, false
+		}
+	}
+	return nil, false
 }
 
 // returnsStoredNonNil: the return reloads a named-result cell whose last store in the region is non-nil.
